@@ -286,6 +286,20 @@ func (w *World) parseContractFile(path string) error {
 			cur.Expect = rest
 		case "names":
 			cur.Names = strings.Fields(rest)
+		case "macro":
+			i := strings.Index(rest, "=")
+			if i < 0 {
+				return fail("bad macro")
+			}
+			if w.macros == nil {
+				w.macros = map[string]string{}
+			}
+			w.macros[strings.TrimSpace(rest[:i])] = strings.TrimSpace(rest[i+1:])
+		case "immutable":
+			if w.immutable == nil {
+				w.immutable = map[string]bool{}
+			}
+			w.immutable[rest] = true
 		case "globalinv":
 			i := strings.Index(rest, ":")
 			if i < 0 {
